@@ -1,6 +1,7 @@
 import gen
 
-NAME_POOL = ["a", "b", "ab", "A", "a.b", "a*", "x?", "[a]", "a+b", "(c)", "c\\d", "$e", "^f", "g|h", "i j", "é", "n\nl", "Ab", "aB", "None", ";", "/"]
+NAME_POOL = ["a", "b", "ab", "A", "a.b", "a*", "x?", "[a]", "a+b", "(c)", "c\\d", "$e", "^f", "g|h", "i j", "é", "n\nl", "Ab", "aB", "None", ";", "/",
+             "0", "1", "0.0", "False", "True"]       # also stored as the non-string objects that print like this
 ASCII_POOL = [n for n in NAME_POOL if all(ord(ch) < 128 for ch in n)]
 
 
@@ -24,6 +25,14 @@ def names_for(rng, t, sep, unique, ic, allow_dups):
     names[t[0]] = rng.choice(pool)
     walk(t)
     return [[l, names[l]] for l in labs]
+
+
+TYPED_NAMES = ("0", "1", "0.0", "False", "True", "None")
+
+
+def typed_labels(rng, names):
+    """labels whose name is stored as the non-string object printing as that name (0, 0.0, False, None, ...)"""
+    return [l for l, v in names if v in TYPED_NAMES and rng.random() < 0.6]
 
 
 def abs_path(t, names, sep, label):
